@@ -9,6 +9,8 @@ stdin: one JSON case per line; stdout: one JSON result per line.
  "ops":["enter"|"ok"|"fail"|"exit", ...]}
     the backends are subclasses registered with register_parallel_backend whose configure() records what it is given;
     -> the kwargs resolved by Parallel.__init__ and the list of recorded configure calls
+{"mode":"pool",...} / {"mode":"tempdir",...}: the temp folder the pool / executor really resolves and the kwargs that reach the pool
+    constructor (MemmappingPool / get_memmapping_executor are wrapped); one interpreter per JOBLIB_TEMP_FOLDER set / unset
 """
 import json
 import multiprocessing
@@ -99,13 +101,67 @@ def main():
         stack.close()
         return {"resolved": resolved, "configure_calls": list(records), "per_op": marks}
 
+    # ---- what the pool / executor is REALLY built with (the merge with the backend object's kwargs happens inside configure)
+    import joblib._parallel_backends as pbm
+    from joblib import _memmapping_reducer as mred
+    built = []
+    real_pool, real_exec = pbm.MemmappingPool, pbm.get_memmapping_executor
+
+    def rec_pool(processes=None, **kw):
+        built.append({"ctor": "MemmappingPool", "size": processes, "kwargs": {k: (v if isinstance(v, (int, str, type(None))) else "<obj>")
+                                                                            for k, v in kw.items()}})
+        return real_pool(processes, **kw)
+
+    def rec_exec(n_jobs, **kw):
+        built.append({"ctor": "get_memmapping_executor", "size": n_jobs,
+                      "kwargs": {k: (v if isinstance(v, (int, str, type(None))) else "<obj>") for k, v in kw.items()}})
+        return real_exec(n_jobs, **kw)
+    pbm.MemmappingPool = rec_pool
+    pbm.get_memmapping_executor = rec_exec
+
+    def default_parent():
+        saved = os.environ.pop("JOBLIB_TEMP_FOLDER", None)
+        try:
+            return os.path.dirname(mred._get_temp_dir("verif_probe", None)[0])
+        finally:
+            if saved is not None:
+                os.environ["JOBLIB_TEMP_FOLDER"] = saved
+
+    def run_pool(c):
+        """{"mode":"pool","backend":"multiprocessing"|"loky","args":{Parallel kwargs},"enclosing":{parallel_config kwargs}|null,
+            "objkw":{kwargs of a backend INSTANCE passed as backend=}|null}"""
+        import contextlib
+        del built[:]
+        kw = dict(c["args"])
+        cm = parallel_config(**c["enclosing"]) if c.get("enclosing") else contextlib.nullcontext()
+        with cm:
+            if c.get("objkw") is not None:
+                kw["backend"] = {"multiprocessing": pbm.MultiprocessingBackend, "loky": pbm.LokyBackend}[c["backend"]](**c["objkw"])
+            elif not (c.get("enclosing") or {}).get("backend"):
+                kw["backend"] = c["backend"]
+            with Parallel(n_jobs=2, **kw) as p:
+                r = {"resolved_temp_folder": p._backend_kwargs["temp_folder"], "built": list(built),
+                     "default_parent": default_parent(), "env": os.environ.get("JOBLIB_TEMP_FOLDER")}
+                if c["backend"] == "multiprocessing":
+                    r["pool_temp_parent"] = os.path.dirname(p._backend._pool._temp_folder)
+                    r["maxtasksperchild"] = p._backend._pool._maxtasksperchild
+                else:
+                    r["pool_temp_parent"] = os.path.dirname(p._backend._workers._temp_folder_manager.resolve_temp_folder_name())
+                    r["executor_id"] = id(p._backend._workers)
+        return r
+
+    def run_tempdir(c):
+        """{"mode":"tempdir","arg":path|null}: the unit _get_temp_dir(name, arg)"""
+        return {"parent": os.path.dirname(mred._get_temp_dir("verif_unit", c["arg"])[0]), "default_parent": default_parent(),
+                "env": os.environ.get("JOBLIB_TEMP_FOLDER")}
+
     for line in sys.stdin:
         line = line.strip()
         if not line:
             continue
         c = json.loads(line)
         try:
-            r = run_ctx(c) if c["mode"] == "ctx" else run_life(c)
+            r = {"ctx": run_ctx, "life": run_life, "pool": run_pool, "tempdir": run_tempdir}[c["mode"]](c)
         except BaseException as e:  # noqa
             r = {"harness_error": repr(e)}
         out.write(json.dumps(r) + "\n")
